@@ -436,6 +436,19 @@ pub fn cluster_post(
         if !caught_up || !dissemination_guaranteed {
             continue;
         }
+        // "a window that starts after stabilisation", operationally: before the leader's first shred
+        // no correct node had voted on any slot of the window (votes cast before stabilisation are
+        // re-broadcast by standstill recovery and would otherwise look like fresh ones), and no correct
+        // node skipped a slot of the preceding window (otherwise some nodes see a ready parent - and arm
+        // their timeouts for this window - long before the leader can start; DESIGN §7 C02 (iii))
+        let early_vote = live.iter().any(|i| obs.votes_by_node[*i].iter().any(|v| v.slot.inner() >= first && v.slot.inner() < first + 4 && v.at_ms < t_l));
+        let prev_skipped = (0..n).filter(|i| cfg.roles[*i] == cluster::Role::Correct).any(|i| {
+            obs.votes_by_node[i].iter().any(|v| v.slot.inner() + 4 >= first && v.slot.inner() < first && matches!(v.kind, "skip" | "sf"))
+        });
+        if early_vote || prev_skipped {
+            kernel::probe("c02_windows_disqualified_ragged_start");
+            continue;
+        }
         let deadline = t_l + 4 * 400 + WINDOW_FINALITY_SLACK_MS;
         if deadline > end {
             continue;
